@@ -5,8 +5,11 @@ from .sym import Contract
 CONTRACTS: list[Contract] = []
 
 
-def contract(qual, joined_locals=(), comps=None, **kw):
+def contract(qual, joined_locals=(), comps=None, match_params=None, defines=(), replay_hook=None, **kw):
     c = Contract(qual, **kw)
+    c.replay_hook = replay_hook
+    c.defines = list(defines)
+    c.match_params = match_params or {}
     c.joined_locals = tuple(joined_locals)
     c.comps = comps or {}
     CONTRACTS.append(c)
